@@ -324,6 +324,12 @@ class Interp(object):
         except RecursionError:
             raise
         except Exception as e:
+            # a buffer of concrete content is passed as the bytes it denotes
+            if not trusted and isinstance(e, TypeError) and any(isinstance(a, SBuf) and not a.is_symbolic() for a in args):
+                a2 = [(a.native() if a.kind != 'bytearray' else bytearray(a.native()))
+                      if isinstance(a, SBuf) and not a.is_symbolic() else a for a in args]
+                if not any(isinstance(a, SBuf) and a.kind != 'bytes' for a in args):
+                    return self._native(f, a2, kwargs)
             if not trusted and (any(deep_sym(a) for a in args) or any(deep_sym(a) for a in kwargs.values())):
                 raise Unsupported('native call %s with symbolic arguments failed: %r' % (
                     getattr(f, '__qualname__', getattr(f, '__name__', f)), e))
